@@ -1,10 +1,12 @@
 //! Engine `mw` (C16): middleware stacks and the redirect middleware of crux_http, driven through a real
 //! crux `Core<App>`; the harness plays the shell and answers every `HttpRequest` effect from the case's
 //! server table.
-//!   mw gen <seed> <n> | mw run
+//!   mw gen <seed> <n> | mw run | mw fill   (fill: recompute the `ops` section of hand-written cases)
 //!
 //! case (space separated tokens):
-//!   <api> <method> <url> <body> <hdrs> mw <n> <item>* srv <n> <row>* ops <n> <entry>*
+//!   <api> <method> <url> <body> <hdrs> cmw <n> <item>* mw <n> <item>* srv <n> <row>* ops <n> <entry>*
+//!     cmw    : client middleware (installed through the cfg(crux_verif) hook `Http::verif_with_client_middleware`;
+//!              the command API has no client: `cmw 0` there), mw: per-request middleware
 //!     api    : send | async | cmd         (capability `.send(ev)`, capability `.send_async().await`, command API)
 //!     hdrs   : `_` or `x-a=v,x-b=w` (names sorted, distinct, all < "x-mw")
 //!     item   : pass k | tag k | short k status | fail k | twice k | issue k url att | redirect attempts
@@ -40,7 +42,7 @@ fn mark(log: &Log, s: String) {
 }
 
 #[derive(Clone, Debug)]
-enum MwSpec {
+pub enum MwSpec {
     Pass(u8),
     Tag(u8),
     Short(u8, u16),
@@ -130,7 +132,7 @@ impl Middleware for Issue {
 }
 
 #[derive(Clone, Debug)]
-struct Row {
+pub struct Row {
     url: String,
     reply: String,
     body: Vec<u8>,
@@ -138,12 +140,13 @@ struct Row {
 }
 
 #[derive(Clone, Debug)]
-struct Case {
+pub struct Case {
     api: String,
     method: Method,
     url: Url,
     body: Vec<u8>,
     headers: Vec<(String, String)>,
+    client: Vec<MwSpec>,
     stack: Vec<MwSpec>,
     rows: Vec<Row>,
     ops_ok: bool,
@@ -181,6 +184,30 @@ fn show_err(e: &HttpError) -> String {
     }
 }
 
+/// `$b.$method(<the middleware described by $m>)`
+macro_rules! with_mw {
+    ($b:expr, $method:ident, $m:expr, $log:expr) => {
+        match $m.clone() {
+            MwSpec::Pass(k) => $b.$method(Pass(k, $log.clone())),
+            MwSpec::Tag(k) => $b.$method(Tag(k, $log.clone())),
+            MwSpec::Short(k, s) => $b.$method(Short(k, s, $log.clone())),
+            MwSpec::Fail(k) => $b.$method(Fail(k, $log.clone())),
+            MwSpec::Twice(k) => $b.$method(Twice(k, $log.clone())),
+            MwSpec::Issue(k, u, a) => $b.$method(Issue(k, u, a, $log.clone())),
+            MwSpec::Redirect(a) => $b.$method(Redirect::new(a)),
+        }
+    };
+}
+
+/// the capability with the client middleware of the case installed (hook of /repo, cfg(crux_verif))
+fn client_of(http: &Http<Event>, case: &Case, log: &Log) -> Http<Event> {
+    let mut http = http.clone();
+    for m in &case.client {
+        http = with_mw!(http, verif_with_client_middleware, m, log);
+    }
+    http
+}
+
 /// attach the stack of the case to a builder (generic over the three builder types by macro)
 macro_rules! attach {
     ($b:expr, $case:expr, $log:expr) => {{
@@ -192,15 +219,7 @@ macro_rules! attach {
             b = b.body_bytes(&$case.body);
         }
         for m in &$case.stack {
-            b = match m.clone() {
-                MwSpec::Pass(k) => b.middleware(Pass(k, $log.clone())),
-                MwSpec::Tag(k) => b.middleware(Tag(k, $log.clone())),
-                MwSpec::Short(k, s) => b.middleware(Short(k, s, $log.clone())),
-                MwSpec::Fail(k) => b.middleware(Fail(k, $log.clone())),
-                MwSpec::Twice(k) => b.middleware(Twice(k, $log.clone())),
-                MwSpec::Issue(k, u, a) => b.middleware(Issue(k, u, a, $log.clone())),
-                MwSpec::Redirect(a) => b.middleware(Redirect::new(a)),
-            };
+            b = with_mw!(b, middleware, m, $log);
         }
         b
     }};
@@ -217,11 +236,11 @@ impl crux_core::App for App {
         match event {
             Event::Go(case, log) => match case.api.as_str() {
                 "send" => {
-                    attach!(caps.http.request(case.method, case.url.clone()), case, log).send(Event::Got);
+                    attach!(client_of(&caps.http, &case, &log).request(case.method, case.url.clone()), case, log).send(Event::Got);
                     Command::done()
                 }
                 "async" => {
-                    let fut = attach!(caps.http.request(case.method, case.url.clone()), case, log).send_async();
+                    let fut = attach!(client_of(&caps.http, &case, &log).request(case.method, case.url.clone()), case, log).send_async();
                     caps.compose.spawn(|ctx| async move {
                         let r = match fut.await {
                             Ok(mut res) => {
@@ -320,31 +339,40 @@ fn parse_case(line: &str) -> Option<Case> {
             headers.push((k.to_string(), v.to_string()));
         }
     }
-    if next(&mut i)? != "mw" {
-        return None;
-    }
-    let n: usize = next(&mut i)?.parse().ok()?;
-    let mut stack = vec![];
-    for _ in 0..n {
-        let kind = next(&mut i)?;
-        let k: u8 = next(&mut i)?.parse().ok()?;
-        stack.push(match kind {
-            "pass" => MwSpec::Pass(k),
-            "tag" => MwSpec::Tag(k),
-            "short" => MwSpec::Short(k, next(&mut i)?.parse().ok()?),
-            "fail" => MwSpec::Fail(k),
-            "twice" => MwSpec::Twice(k),
-            "issue" => {
-                let u = next(&mut i)?;
-                if Url::parse(u).ok()?.as_str() != u {
-                    return None;
+    let mut stacks: Vec<Vec<MwSpec>> = vec![];
+    for section in ["cmw", "mw"] {
+        if next(&mut i)? != section {
+            return None;
+        }
+        let n: usize = next(&mut i)?.parse().ok()?;
+        let mut stack = vec![];
+        for _ in 0..n {
+            let kind = next(&mut i)?;
+            let k: u8 = next(&mut i)?.parse().ok()?;
+            stack.push(match kind {
+                "pass" => MwSpec::Pass(k),
+                "tag" => MwSpec::Tag(k),
+                "short" => MwSpec::Short(k, next(&mut i)?.parse().ok()?),
+                "fail" => MwSpec::Fail(k),
+                "twice" => MwSpec::Twice(k),
+                "issue" => {
+                    let u = next(&mut i)?;
+                    if Url::parse(u).ok()?.as_str() != u {
+                        return None;
+                    }
+                    let a = next(&mut i)?;
+                    MwSpec::Issue(k, u.to_string(), if a == "-" { None } else { Some(a.parse().ok()?) })
                 }
-                let a = next(&mut i)?;
-                MwSpec::Issue(k, u.to_string(), if a == "-" { None } else { Some(a.parse().ok()?) })
-            }
-            "redirect" => MwSpec::Redirect(k),
-            _ => return None,
-        });
+                "redirect" => MwSpec::Redirect(k),
+                _ => return None,
+            });
+        }
+        stacks.push(stack);
+    }
+    let stack = stacks.pop()?;
+    let client = stacks.pop()?;
+    if api == "cmd" && !client.is_empty() {
+        return None; // the command API has no client
     }
     if next(&mut i)? != "srv" {
         return None;
@@ -395,7 +423,7 @@ fn parse_case(line: &str) -> Option<Case> {
     if i != t.len() {
         return None;
     }
-    Some(Case { api, method, url, body, headers, stack, rows, ops_ok })
+    Some(Case { api, method, url, body, headers, client, stack, rows, ops_ok })
 }
 
 fn show_headers(req: &HttpRequest) -> String {
@@ -577,6 +605,15 @@ fn explore(rows: &[Row], start: &str, depth: usize, ops: &mut Ops) -> bool {
     true
 }
 
+/// attempt limit: uniform over 0..=5, or (half of the time) the number of redirecting rows -1 / +0 / +1
+fn rand_attempts(r: &mut Rng, nred: u64) -> u64 {
+    if r.chance(1, 2) {
+        r.below(6)
+    } else {
+        (nred + r.below(3)).saturating_sub(1).min(5)
+    }
+}
+
 fn gen_case(r: &mut Rng, i: usize) -> Option<String> {
     let api = match i % 8 {
         0..=4 => "send",
@@ -661,6 +698,7 @@ fn gen_case(r: &mut Rng, i: usize) -> Option<String> {
     }
 
     // middleware stack
+    let nred = rows.iter().filter(|x| x.reply.parse::<u16>().map_or(false, |s| REDIRECTS.contains(&s))).count() as u64;
     let nmw = match r.below(12) {
         0 => 0,
         1..=3 => 1,
@@ -688,7 +726,7 @@ fn gen_case(r: &mut Rng, i: usize) -> Option<String> {
             }
             _ if redirects < 3 => {
                 redirects += 1;
-                format!("redirect {}", r.below(6))
+                format!("redirect {}", rand_attempts(r, nred))
             }
             _ => format!("pass {k}"),
         };
@@ -696,7 +734,7 @@ fn gen_case(r: &mut Rng, i: usize) -> Option<String> {
     }
     if stack.iter().all(|m| !m.starts_with("redirect")) && r.chance(1, 2) && nrows > 0 {
         let at = r.below(stack.len() as u64 + 1) as usize;
-        stack.insert(at, format!("redirect {}", r.below(6)));
+        stack.insert(at, format!("redirect {}", rand_attempts(r, nred)));
     }
 
     let mut ops = Ops { entries: vec![] };
@@ -709,13 +747,20 @@ fn gen_case(r: &mut Rng, i: usize) -> Option<String> {
         return None;
     }
 
+    // the first `ncl` middleware are installed on the client, the rest on the request
+    let ncl = if api == "cmd" || r.chance(1, 2) { 0 } else { r.below(stack.len() as u64 + 1) as usize };
     let mut line = format!(
-        "{api} {method} {url} {} {} mw {}",
+        "{api} {method} {url} {} {} cmw {}",
         to_hex(&body),
         if hdrs.is_empty() { "_".to_string() } else { hdrs.join(",") },
-        stack.len()
+        ncl
     );
-    for m in &stack {
+    for m in &stack[..ncl] {
+        line.push(' ');
+        line.push_str(m);
+    }
+    line.push_str(&format!(" mw {}", stack.len() - ncl));
+    for m in &stack[ncl..] {
         line.push(' ');
         line.push_str(m);
     }
@@ -740,11 +785,42 @@ fn gen(seed: u64, n: usize) {
     let out = std::io::stdout();
     let mut out = std::io::BufWriter::new(out.lock());
     let mut i = 0;
+    let mut dropped = 0usize;
     while i < n {
         if let Some(line) = gen_case(&mut r, i) {
             writeln!(out, "{line}").unwrap();
             i += 1;
+        } else {
+            dropped += 1;
         }
+    }
+    if std::env::var("MW_GEN_STATS").is_ok() {
+        eprintln!("dropped {dropped} of {} candidate cases (URL-operation table too large)", n + dropped);
+    }
+}
+
+/// `mw fill`: for hand-written cases — replaces the `ops` section of each line by the entries a walk needs
+/// (computed with the real `url` crate, like `gen` does).
+fn fill() {
+    let stdin = std::io::stdin();
+    for line in stdin.lock().lines() {
+        let line = line.unwrap();
+        let head = line.split(" ops ").next().unwrap().to_string();
+        let Some(case) = parse_case(&format!("{head} ops 0")) else {
+            println!("bad-case");
+            continue;
+        };
+        let mut ops = Ops { entries: vec![] };
+        let mut starts = vec![case.url.to_string()];
+        for m in case.client.iter().chain(&case.stack) {
+            if let MwSpec::Issue(_, u, _) = m {
+                starts.push(u.clone());
+            }
+        }
+        for s in &starts {
+            explore(&case.rows, s, 17, &mut ops);
+        }
+        println!("{head} ops {}{}{}", ops.entries.len(), if ops.entries.is_empty() { "" } else { " " }, ops.entries.join(" "));
     }
 }
 
@@ -753,8 +829,9 @@ fn main() {
     match args.get(1).map(String::as_str) {
         Some("gen") => gen(args[2].parse().unwrap(), args[3].parse().unwrap()),
         Some("run") => run(),
+        Some("fill") => fill(),
         _ => {
-            eprintln!("usage: mw gen <seed> <n> | run");
+            eprintln!("usage: mw gen <seed> <n> | run | fill");
             std::process::exit(2);
         }
     }
